@@ -65,6 +65,8 @@ def parser_for(lang, loc, norm, ref):
 
 def classify(loc, word, canonical, s):
     """Mechanism label from the translate tap: was the canonical English name produced at all?"""
+    if not TranslateTap.available:
+        return "unclassified(tap-unavailable)"   # Locale.translate was renamed/moved: the mechanism cannot be told
     evs = [e for e in TranslateTap.events() if not e[2]]
     if not evs:
         return "no-translation(not applicable to locale)"
